@@ -482,7 +482,16 @@ pub(crate) fn run_scheduling_solver(
             let v_id = ResourceVariantId::new(0);
             let n_nodes = rqv.get(v_id).n_nodes() as usize;
             let mut ws: Vec<ThinVec<WorkerId>> = Vec::new();
-            for worker in &workers {
+            // Workers are chunked into node sets group by group (the solver selects a multiple
+            // of `n_nodes` workers in every group), otherwise a set could span two groups.
+            let mut workers_by_group: Vec<&&Worker> = workers.iter().collect();
+            workers_by_group.sort_by(|a, b| {
+                a.configuration
+                    .group
+                    .cmp(&b.configuration.group)
+                    .then(a.id.cmp(&b.id))
+            });
+            for worker in workers_by_group {
                 if let Some(v) = placements.get(&(worker.id, resource_rq_id, v_id)) {
                     let count = solution.get_value(*v).round() as u32;
                     if count > 0 {
